@@ -13,8 +13,10 @@ What a solver can decide here, and how (DESIGN.md, C18):
                  state, create(copy of d) == create(d) == create(d again, as mutated by the previous run), symbolic leaves.
   sign_* / encrypt_*   two runs with the same KMS/entropy outputs are byte-identical; a run with independent outputs differs
                  only in the signature field, resp. IV / ciphertext / tag.
-Outside (needs other interpreters / C parsers; stated in evidence): PYTHONHASHSEED, working directory, fresh-process comparison,
-JSON == YAML loaders.
+  hash_seed_*    the string-hash seed as a solver variable: sets built by the repository's modules iterate in a solver-chosen order.
+  cwd_independence   the working directory as a solver variable: relative names may or may not exist there.
+  signer_object_history   one Signer object used twice vs a fresh one.
+Outside (stated in evidence): fresh-process comparison beyond the frame condition, JSON == YAML loaders.
 """
 from __future__ import annotations
 
@@ -56,7 +58,9 @@ META = {
     "globals, class dictionaries, function defaults/closures of all modules loaded from the repository (about 1300 entries)",
     "stubs": ["as in the wrapped harnesses (file system, hashes, uuid, KMS, AES/entropy, hex writer, cbor model)"],
     "outside": [
-        "PYTHONHASHSEED, working directory, comparison with a fresh interpreter, JSON vs YAML loaders (C parsers, process-level configuration): not reachable by symbolic execution of the code; a change that, say, iterates over a set of names is not detected here",
+        "comparison with a fresh interpreter beyond the frame condition, JSON vs YAML loaders (C parsers): not reachable by symbolic execution of the code",
+        "hash seed: decided for sets/frozensets built by name in the repository's modules (solver-chosen iteration order, vlib/ndset.py); set displays/comprehensions and dict-ordering effects of third-party code are not modelled",
+        "working directory: decided for names looked up through open/os.stat/os.path/pathlib/os.open (vlib/vfs.py, cwd_free); other doors (os.scandir, glob) fall through to the host directory",
         "state held by third-party libraries (cbor2, cryptography, intelhex, yaml, jinja2)",
         "E2-decided operations (MPI merge, cache from envelope hierarchy, storage record layout) are not wrapped; MPI generate and the cache partition writer have their own small E1 harnesses here",
         "texts of error messages (they name the cbstr wrapper as 'Cbstr' before its first instantiation and by the wrapped class afterwards)",
